@@ -10,7 +10,7 @@ RULE = ('cases = generated G-SEL spec with 1-3 incompatibility pairs (on start, 
         'feasible finals = R-SEL set (nothing admissible lost, nothing inadmissible kept), initial graph infeasible only if '
         'R-SEL is empty; non-trivial = at least one assignment is rejected by an incompatibility and at least one is '
         'admissible; distinct by sha1(spec)')
-BUDGET = {'quick': 300, 'thorough': 6000}
+BUDGET = {'quick': 600, 'thorough': 10000}
 
 
 @st.composite
